@@ -3,6 +3,7 @@ import Frp.Engines.HttpAuth
 import Frp.Engines.Udp
 import Frp.Engines.Conf
 import Frp.Engines.Nat
+import Frp.Engines.Wait
 /-! Registry of driver engines (one line per engine). -/
 namespace Frp.Engines
 open Frp.Proto
@@ -12,5 +13,6 @@ def all : List (String × Engine) :=
   , ("udp", udp)
   , ("conf", conf)
   , ("nat", nat)
+  , ("wait", wait)
   ]
 end Frp.Engines
